@@ -47,16 +47,16 @@ def unit_cid_read():
                 o["_data_format"] = fresh(Opt(DFO), "df")[0]; st.pc.append(z3.Not(sort_of(Opt(DFO)).is_none(o["_data_format"].z)))
             if kind == "f_rows":
                 nl, c = fresh(UFList(STR), "names"); st.pc.extend(c); st.pc.append(nl.length == o["_field_names"].length + 1); o["_field_names"] = nl
-            yield st, None
             sb = st.copy()
             # the handlers raise InterfaceError located at (a copy of) the reader's current location
             m_ = fresh(STR, "msg")[0]; sb.pc.append(z3.Length(m_.z) > 0)
             yield from raise_new(ex, sb, "InterfaceError", [m_, loc])
+            yield st, None
         return m
     def m_validate(ex, st, recv, args, kw):
-        yield st, None
         sb = st.copy(); m_ = fresh(STR, "msg")[0]; sb.pc.append(z3.Length(m_.z) > 0); sb.ghost["from_validate"] = True
         yield from raise_new(ex, sb, "InterfaceError", [m_])
+        yield st, None
     def known_upto(ex, st, k):
         """every row before k is empty, has an empty marker, or a marker D / F / C (after lower-casing and stripping)"""
         rows = st.ghost["rows"]; j = z3.Int("j!km"); r = rows.at(j); rt = strip_of(ex, lower_of(ex, r[0]))
@@ -257,11 +257,12 @@ def unit_add_data_format_row():
         return setup
     def m_new_df(ex, st, info, args, kw):
         st.ghost["made"] = list(args); d = Ref("DataFormat"); st.heap[d.oid] = {}
-        yield st, d
         sb = st.copy(); mm = fresh(STR, "m")[0]; sb.pc.append(z3.Length(mm.z) > 0); yield from raise_new(ex, sb, "InterfaceError", [mm, args[1]])
+        yield st, d
     def m_set_property(ex, st, recv, args, kw):
-        st.ghost["set"] = (recv, list(args)); yield st, None
+        st.ghost["set"] = (recv, list(args))
         sb = st.copy(); mm = fresh(STR, "m")[0]; sb.pc.append(z3.Length(mm.z) > 0); yield from raise_new(ex, sb, "InterfaceError", [mm, args[2]])
+        yield st, None
     def make(ctx):
         out = []
         for has_format in (False, True):
@@ -332,3 +333,55 @@ def unit_field_names_and_lengths():
         return {"contract": c, "callees": {"absattr:Field.field_name": absattr_name, "absattr:Field.length": absattr_length}, "spec_functions": {"upto": upto},
                 "assumptions": ["precondition established by add_field_format_row for fixed CIDs: every field's length has exactly one item with lower == upper (an int >= 1)"]}
     return ProofUnit("interface.field_names_and_lengths", "field_names_and_lengths: (name, width) per field in order", ["C13", "C14", "C04"], make, None)
+
+
+# =====================================================================================================================
+# Cid.add_check_row (C09, C20)
+# =====================================================================================================================
+def unit_add_check_row():
+    CLS = Abs("Class"); CHK = Abs("CheckObj")
+    def setup(ex, st):
+        cells = [fresh(STR, "cell%d" % i)[0] for i in range(6)]
+        loc = new_location(st, fresh(INT, "line")[0], 0)
+        classes, c1 = fresh_ufdict(STR, sort_of(CLS), "check_classes", None, lambda st_, z: Sym(CLS, z)); st.pc.extend(c1)
+        checks, c2 = fresh_ufdict(STR, sort_of(CHK), "checks", lambda st_, v: v.z, lambda st_, z: Sym(CHK, z)); st.pc.extend(c2)
+        names, c3 = fresh(UFList(STR), "check_names"); st.pc.extend(c3); st.pc.append(names.length == checks.size)
+        fnames, c4 = fresh(UFList(STR), "field_names"); st.pc.extend(c4)
+        self = Ref("Cid"); st.heap[self.oid] = {"_location": loc, "_check_name_to_class_map": classes, "_check_name_to_check_map": checks, "_check_names": names, "_field_names": fnames}
+        st.frames[-1].env.update({"self": self, "possibly_incomplete_items": cells})
+        st.ghost.update({"cells": cells, "this": self, "loc": loc, "classes": classes, "checks0": checks, "names0": names, "fnames": fnames, "created": None, "line0": st.heap[loc.oid]["_line"]})
+    def m_create_check_class(ex, st, recv, args, kw):
+        t = lift(args[0]).z; key = z3.Concat(t, z3.StringVal("Check"))       # the caller has already checked membership of check_type + 'Check'
+        yield st, Sym(CLS, st.ghost["classes"].val(key))
+    def m_new(ex, st, recv, args, kw):
+        st.ghost["created"] = list(args); yield st, Sym(CHK, z3.Const("new_check", sort_of(CHK)))
+    def m_init(ex, st, recv, args, kw):
+        st.ghost["init_args"] = list(args)
+        sb = st.copy(); mm = fresh(STR, "m")[0]; sb.pc.append(z3.Length(mm.z) > 0); yield from raise_new(ex, sb, "InterfaceError", [mm, st.ghost["loc"]])
+        yield st, None
+    def absattr_location(ex, st, recv): return new_location(st, fresh(INT, "l")[0], 1)
+    def make(ctx):
+        def picked(ex, st):
+            """description / type / rule after dropping empty cells between description and type (the documented hack for merged cells)"""
+            return st.ghost.get("triple")
+        def post(ex, st):
+            o = st.heap[st.ghost["this"].oid]; env = st.frames[-1].env
+            desc, typ, rule = lift(env["check_description"]).z, lift(env["check_type"]).z, lift(env["check_rule"]).z
+            d0, d1 = st.ghost["checks0"], o["_check_name_to_check_map"]; names1 = o["_check_names"]; names0 = st.ghost["names0"]
+            ia = st.ghost.get("init_args")
+            built = z3.BoolVal(ia is not None and len(ia) == 4 and ia[2] is st.ghost["fnames"] and ia[3] is st.ghost["loc"])
+            if ia is not None and len(ia) == 4: built = z3.And(built, lift(ia[0]).z == desc, lift(ia[1]).z == rule)
+            reg = z3.BoolVal(isinstance(d1, UFDict) and isinstance(names1, UFL))
+            if isinstance(d1, UFDict) and isinstance(names1, UFL):
+                reg = z3.And(d1.has(desc), d1.val(desc) == z3.Const("new_check", sort_of(CHK)), names1.length == names0.length + 1, names1.at(names0.length) == desc)
+            return Sym(BOOL, z3.And(desc == st.ghost["cells"][0].z, desc != "", z3.Not(d0.has(desc)), st.ghost["classes"].has(z3.Concat(typ, z3.StringVal("Check"))), built, reg))
+        c = Contract("interface.Cid.add_check_row", setup,
+                returns=[Clause(post, "a-check-is-added-only-with-a-new-non-empty-description-and-a-known-type-built-from-(description,-rule,-declared-field-names,-location)-and-registered-in-declaration-order", props=["C09", "C20"])],
+                raises={"InterfaceError": [Clause("exc._location is not None and exc._location._line == line0", "rejection-located-at-the-current-row", props=["C09"]),
+                                           Clause(lambda ex, st: Sym(BOOL, z3.And(st.heap[st.ghost["this"].oid]["_check_names"].length == st.ghost["names0"].length) if isinstance(st.heap[st.ghost["this"].oid]["_check_names"], UFL) else z3.BoolVal(False)), "a-refused-row-registers-nothing", props=["C09"])]},
+                loops={0: Unroll(6)}, expect=["return", "InterfaceError"], n_loops=1, raises_only_props=["C09", "C10"])
+        return {"contract": c, "callees": {"ref:Cid._create_check_class": m_create_check_class, "abs:Class.__new__": AbsContract(m_new), "abs:CheckObj.__init__": AbsContract(m_init), "absattr:CheckObj.location": absattr_location,
+                                           "_tools.human_readable_list": ModelContract(m_opaque_str)},
+                "assumptions": ["check classes are abstract (plug-ins): constructing one either succeeds or raises an InterfaceError (the built-in constructors have their own contracts)",
+                                "the class map and the check map are arbitrary dicts (symbolic); A-STR: strip() uninterpreted"]}
+    return ProofUnit("interface.Cid.add_check_row", "add_check_row: description non-empty and unique, type known, check built with the declared field names, registered in order; errors at the current row", ["C09", "C20", "C10"], make, None)
